@@ -121,6 +121,8 @@ def gen_case(rng, tier, g):
         # the petl logger with a handler that formats every record, or one
         # that also keeps the records (MemoryHandler, pytest's caplog)
         case['knobs']['logging'] = 'retain' if r < 0.18 else 'format'
+    if rng.random() < 0.12:
+        case['fluent'] = True       # method-call style
     if rng.random() < 0.04:
         # the history runs in a forked child of the process that imported
         # petl (a multiprocessing worker)
@@ -321,7 +323,8 @@ def _history(e, case, stack, expected, td, sb, ctl, log, probes, label,
         tolerant = True
     else:
         tolerant = False
-    w, views = build(e, stack, case['tables'], tempdir=td)
+    w, views = build(e, stack, case['tables'], tempdir=td,
+                     fluent=bool(case.get('fluent')))
     sch = Sched(list(views), expected, log=log, items=is_items(stack),
                 expect_fault=(lambda t, ex: True) if tolerant
                 else _is_injected)
